@@ -538,7 +538,7 @@ Proof.
   - apply dec_ok_point.
   - apply dec_ok_enum.
   - apply dec_ok_arr, IH. now rewrite Hw, Ht.
-  - apply andb_true_iff in Hw as [Hw _]. apply dec_ok_nullable, IH. now rewrite Hw, Ht.
+  - apply dec_ok_nullable, IH. now rewrite Hw, Ht.
   - apply andb_true_iff in Hw as [Hw Hlc]. apply dec_ok_lc; [exact Hlc|]. apply IH. now rewrite Hw, Ht.
   - apply andb_true_iff in Hw as [Hwk Hwv]. apply andb_true_iff in Ht as [Htk Htv].
     apply dec_ok_map; [apply IHk; now rewrite Hwk, Htk|apply IHv; now rewrite Hwv, Htv].
